@@ -47,6 +47,7 @@ var panicKinds = map[string][]string{
 	"rte.div":      {"divide by zero"},
 	"rte.make":     {"makeslice", "out of range"},
 	"rte.panic":    {""},
+	"rte.extern":   {"reflect:", "reflect."},
 }
 
 // replayViolation turns the solver's counterexample of a failed obligation into an in-package test,
@@ -116,13 +117,16 @@ func judgeReplay(kind, res string) (string, bool) {
 	if strings.Contains(res, "REPLAY-REQUIRES-VIOLATED") {
 		return "constructed inputs do not satisfy the function's requires; not a valid replay: " + short, false
 	}
+	if strings.HasPrefix(kind, "rte.extern@") {
+		kind = "rte.extern"
+	}
 	if strings.HasPrefix(kind, "rte.") {
 		if i := strings.Index(res, "REPLAY-PANIC:"); i >= 0 {
 			msg := res[i:]
 			for _, k := range panicKinds[kind] {
 				if strings.Contains(msg, k) {
-					if kind == "rte.nil" && strings.Contains(res, "REPLAY-NOTE: heap-shaped input built as an empty object") {
-						return "real code dereferences nil, but on an input object that was built empty (heap-shaped counterexample; not counted as a reproduction): " + short, false
+					if strings.Contains(res, "REPLAY-NOTE: heap-shaped input built as an empty object") && (kind == "rte.nil" || kind == "rte.extern") {
+						return "real code panics, but on an input object that was built empty (heap-shaped counterexample; not counted as a reproduction): " + short, false
 					}
 					return "real code panics on the counterexample: " + short, true
 				}
